@@ -14,6 +14,7 @@ from ..lib import walk as W
 from ..lib.core import Failure, Disagreement
 from ..lib.storeimpl2 import Impl2
 from ..lib.storeimpl import Impl
+from ..lib.storeimpl import BadOp as storeimpl_BadOp
 from ..extract import copyshape as _ex
 from ..extract import handlesites as _hs
 
@@ -187,6 +188,29 @@ class ImplF(Impl):
         return ent
 
     def _run(self, op):
+        if op[0] == "source_of" and isinstance(op[5], list):
+            # corpus form: the handle is named by how it is fetched - ["own"], ["link", <path of the linking section>],
+            # ["metadata", <path of the entity>], ["member", <path of the group / tag>, <container>, <position>]
+            _, _, cls, objpath, pp, how = op
+            own = Impl.nav(self, objpath)
+            if how[0] == "own":
+                h = own
+            elif how[0] in ("link", "metadata"):
+                h = getattr(Impl.nav(self, how[1]), how[0])
+            else:
+                h = getattr(Impl.nav(self, how[1]), how[2])[how[3]]
+            par = h._parent
+            want = None if pp is None else (self.f if pp == [] else Impl.nav(self, pp))
+            if addr(h5obj(h)) != addr(h5obj(own)) or (par is None) != (want is None) or \
+                    (par is not None and not isinstance(par, nixio.File) and addr(h5obj(par)) != addr(h5obj(want))):
+                raise storeimpl_BadOp("the handle is not what the op says")
+            if op[1] == "object":           # h5py takes an object handed to Group.copy as it is
+                return [True, h.name]
+            try:
+                found = par._h5group.group[cls][h.name]
+                return [addr(found) == addr(h5obj(h)), _text(found.attrs.get("name")) or ""]
+            except (KeyError, AttributeError, TypeError):
+                return None
         if op[0] == "create_frame":
             owner = self.nav(op[1])
             if not hasattr(owner, "create_data_frame"):
@@ -229,6 +253,10 @@ class Impl20(Impl2):
         return Impl2._copy(self, op)
 
 
+def _text(v):
+    return v.decode() if isinstance(v, bytes) else (None if v is None else str(v))
+
+
 def frame_ents(impl):
     """data frames reachable through the public API (storegen.inventory does not list them)"""
     out = []
@@ -246,7 +274,7 @@ class Gen20(storegen2.Gen2):
     def __init__(self, rng, impl, profile="mixed"):
         super().__init__(rng, impl, profile)
         self.stats = {"copy_ok": 0, "copy_refused": 0, "near_mutations": 0, "same_file": 0, "cross_file": 0,
-                      "keep": 0, "fresh": 0, "shallow": 0, "kinds": {}, "deletes_after_copy": {}}
+                      "keep": 0, "fresh": 0, "shallow": 0, "kinds": {}, "deletes_after_copy": {}, "source_probes": {}}
 
     def frames(self, fi):
         keep = self.impl.cur
@@ -315,6 +343,53 @@ class Gen20(storegen2.Gen2):
         if any(op[0] == "del" and "ok" in out for op, out in zip(self.ops[n0:], self.outs[n0:])):
             d = self.stats["deletes_after_copy"]
             d[label] = d.get(label, 0) + 1
+
+    SOURCE_CLS = {"block": "data", "data_array": "data_arrays", "data_frame": "data_frames", "tag": "tags",
+                  "multi_tag": "multi_tags", "property": "properties"}
+
+    def probe_sources(self, fi):
+        """the model's `sourceOf .parentPath` (Store/CopyHandle.lean) against h5py's path lookup below the group of the
+        handle's parent, for handles of every provenance of file `fi` (up to 8, drawn over the provenance classes):
+        op ["source_of", "path", <container>, <path of the handle's object>, <path of the handle's parent | null>, label];
+        answer [found the handle's own object, name of what was found] or null"""
+        rng = self.rng
+        self.use(fi)
+        impl = self.impl.files[fi]
+        paths = {}
+        for e in self.inv(fi) + self.frames(fi):
+            try:
+                paths.setdefault(addr(h5obj(Impl.nav(impl, e.path))), e.path)
+            except Exception:
+                pass
+        cat = handle_catalogue(impl.f, list(self.SOURCE_CLS) + ["section"])
+        classes = {}
+        for a, hs in cat.items():
+            if a in paths:
+                for lab, h in hs:
+                    classes.setdefault(provenance_class(lab), []).append((lab, h))
+        for c in rng.sample(sorted(classes), min(8, len(classes))):
+            lab, h = rng.choice(classes[c])
+            kind, par = kind_of_handle(h), h._parent
+            if kind is None:
+                continue
+            cls = self.SOURCE_CLS.get(kind) or ("sections" if isinstance(par, nixio.Section) else "metadata")
+            if par is None:
+                pp = None
+            elif isinstance(par, nixio.File):
+                pp = []
+            else:
+                pp = paths.get(addr(h5obj(par)))
+                if pp is None:
+                    continue
+            try:
+                found = par._h5group.group[cls][h.name]
+                out = [addr(found) == addr(h5obj(h)), _text(found.attrs.get("name")) or ""]
+            except (KeyError, AttributeError, TypeError):
+                out = None
+            self.ops.append(["source_of", "path", cls, paths[addr(h5obj(h))], pp, c])
+            self.outs.append({"ok": out})
+            k = "probe/%s/%s" % (c, "none" if out is None else ("own" if out[0] else "OTHER"))
+            self.stats["source_probes"][k] = self.stats["source_probes"].get(k, 0) + 1
 
     def copy_step(self):
         rng = self.rng
@@ -425,6 +500,8 @@ class Gen20(storegen2.Gen2):
         else:
             st["copy_refused"] += 1
         self.dump_both()
+        if rng.random() < 0.4:
+            self.probe_sources(rng.choice([sf, df]))
         eff = name or src.name
         if "ok" in out and dest_path is not None and eff and not storegen.real_uuid(eff) and src.kind == kind:
             cpath = dest_path + [eff]
@@ -599,6 +676,10 @@ def correspondence(ctx):
                     "after every copy; then 1-3 mutations directed at the copy or at the source, and both dumps again; "
                     "then (70% after an id-keeping same-file copy, else 30%) `del container[x]` of the source / the copy "
                     "itself or of an entity below it, and both dumps again (distribution.copies.deletes_after_copy). "
+                    "During a copy 60% of the entities found by path are replaced, on the implementation side, by another "
+                    "handle of the same object (distribution.copies.handles); after 40% of the copies up to 8 handles of "
+                    "every provenance are probed: the model's sourceOf (the object a path below the handle's parent "
+                    "names) against h5py's lookup (distribution.copies.source_probes). "
                     "non-trivial = distinct op (canonical JSON) whose result is an error or a non-empty value",
             "samples": samples, "distribution": {"ops": dist, "impl_errors": errs, "copies": stats,
                                                  "histories": ran, "histories_budget": n_hist},
@@ -2123,7 +2204,7 @@ def oracle(ctx, broken, hints):
     # stops at the first few distinct failures: one concrete failing input is what is asked for
     n = ctx.budget(6, 40) * (4 if broken else 1)
     trials = ctx.budget(14, 24)
-    limit = (170 if broken else 60) if ctx.quick() else (2400 if broken else 900)
+    limit = (170 if broken else 60) if ctx.quick() else (1500 if broken else 540)
     t_end = time.time() + limit
     failures = []
     evals = 0
